@@ -188,7 +188,7 @@ func init() {
 		ID:    "C16",
 		Level: "exploration",
 		Rule: "one case per subset of {elemhide,generichide,jsinject,document,urlblock,genericblock,content,extension,important} on an exception rule (all 512, each in 8 (thorough 200) renderings; modifiers in PRNG order, one in three renderings repeats a modifier), " +
-			"each observed via NewMatchingResult, Engine.MatchRequest and GetCosmeticResult with no other rule, a plain blocking rule and an important blocking rule, " +
+			"each observed via NewMatchingResult, Engine.MatchRequest and GetCosmeticResult with no other rule, a plain blocking rule, an important blocking rule and a domain-specific blocking rule, " +
 			"plus the monotonicity check against every one-modifier superset; non-trivial = subset that contains a cosmetic-relevant modifier; distinct by subset",
 		Assumptions: []string{
 			"$document stands for elemhide+jsinject+urlblock+content+extension as documented in loadOption",
@@ -200,7 +200,7 @@ func init() {
 			mask := idx % 512
 			want := c16Expected(mask)
 			importantBit := 1 << 8
-			for _, other := range []string{"", "||example.org^", "||example.org^$important"} {
+			for _, other := range []string{"", "||example.org^", "||example.org^$important", "||example.org^$domain=example.org|example.net"} {
 				w := want
 				if other == "||example.org^$important" && mask&importantBit == 0 {
 					w = rules.CosmeticOptionAll
